@@ -140,7 +140,11 @@ func c13History(proto Protocol, queue int, maxPacket int32) {
 	tags := map[string]string{"k": "v"}
 	c := r.AllocateCounter("c", tags)
 	// the empty string is a legal metric name and must travel like any other
-	gname := []string{"g", ""}[verifrt.Choose("gauge-name", 2)]
+	// (chosen in the Binary history only: with Compact every extra choice doubles 1200 paths)
+	gname := "g"
+	if proto == Binary {
+		gname = []string{"g", ""}[verifrt.Choose("gauge-name", 2)]
+	}
 	g := r.AllocateGauge(gname, nil)
 	tm := r.AllocateTimer("t", map[string]string{"a": "1", "b": "2"})
 	hv := r.AllocateHistogram("hv", tags, tally.ValueBuckets{1, 2})
